@@ -1360,6 +1360,11 @@ def value_method(it, base, attr, node):
                     vv = it.coerce(v, osrt)
                     r = osrt.ite(has, vv, osrt.none())
                 else:
+                    if getattr(d, "meta", None) == "emptylit" and isinstance(so.val, (S.TList, S.TSet, S.TDict)) and type(d.sort) is not type(so.val):
+                        # d.get(k, set()) on a dict of lists (or the like): an EMPTY default of another container kind; it can
+                        # only be iterated / measured, where it behaves as the empty value of the stored kind (idiom, recorded)
+                        it.eng.idioms.setdefault(it.fname, set()).add("dict.get(k, <empty container of another kind>) read as the empty value of the stored kind")
+                        d = so.val.empty()
                     a, b = it.unify(v, d)
                     r = a.sort.ite(has, a, b)
                 it.note_read(r)
